@@ -1,38 +1,61 @@
 import Driver.Util
 import ClairModel.Model.Arena
+import ClairModel.Model.ArenaFd
+import ClairModel.Model.ArenaProxy
 
 namespace Driver.C10
-open ClairModel.Arena
+open ClairModel.Arena ClairModel.ArenaFd ClairModel.ArenaProxy
 
 def bool? : String → Option Bool
   | "1" => some true
   | "0" => some false
   | _ => none
 
+structure DState where
+  p : PState := {}
+  nkeys : Nat := 0
+
 inductive Line where
-  | op (o : Op)
-  | gc (k : Nat)
+  | op (o : POp)
+  | gc
   | closeref (a b : Nat)
+  | keys (n : Nat)
+
+def nats? : List String → Option (List Nat)
+  | [] => some []
+  | w :: ws => do
+    let n ← w.toNat?
+    let r ← nats? ws
+    pure (n :: r)
+
+def b (o : Op) : Line := .op (.base (.base o))
 
 def parse (l : String) : Option Line :=
   match Driver.words l with
-  | ["spawn", k] => do pure (.op (.spawn (← k.toNat?)))
-  | ["enter", t] => do pure (.op (.enter (← t.toNat?)))
-  | ["fload", k, v] => do pure (.op (.fload (← k.toNat?) (← bool? v)))
-  | ["fnet", k, v] => do pure (.op (.fnet (← k.toNat?) (← bool? v)))
-  | ["freq", k] => do pure (.op (.freq (← k.toNat?)))
-  | ["fbody", k, v] => do pure (.op (.fbody (← k.toNat?) (← bool? v)))
-  | ["fstore", k] => do pure (.op (.fstore (← k.toNat?)))
-  | ["fend", k] => do pure (.op (.fend (← k.toNat?)))
-  | ["cancel", t] => do pure (.op (.cancel (← t.toNat?)))
-  | ["ref", t] => do pure (.op (.ref (← t.toNat?)))
-  | ["val", t] => do pure (.op (.val (← t.toNat?)))
-  | ["retry", t] => do pure (.op (.retry (← t.toNat?)))
-  | ["init", t, v] => do pure (.op (.init (← t.toNat?) (← bool? v)))
-  | ["close", t] => do pure (.op (.close (← t.toNat?)))
-  | ["query", k] => do pure (.op (.query (← k.toNat?)))
-  | ["gc", k] => do pure (.gc (← k.toNat?))
-  | ["closeref", a, b] => do pure (.closeref (← a.toNat?) (← b.toNat?))
+  | ["spawn", k] => do pure (b (.spawn (← k.toNat?)))
+  | ["enter", t] => do pure (b (.enter (← t.toNat?)))
+  | ["fload", k, v] => do pure (b (.fload (← k.toNat?) (← bool? v)))
+  | ["fnet", k, v] => do pure (b (.fnet (← k.toNat?) (← bool? v)))
+  | ["freq", k] => do pure (b (.freq (← k.toNat?)))
+  | ["fbody", k, v] => do pure (b (.fbody (← k.toNat?) (← bool? v)))
+  | ["ftmpfail", k] => do pure (b (.ftmpfail (← k.toNat?)))
+  | ["fstore", k] => do pure (b (.fstore (← k.toNat?)))
+  | ["fend", k] => do pure (b (.fend (← k.toNat?)))
+  | ["cancel", t] => do pure (b (.cancel (← t.toNat?)))
+  | ["ref", t] => do pure (b (.ref (← t.toNat?)))
+  | ["val", t] => do pure (b (.val (← t.toNat?)))
+  | ["retry", t] => do pure (b (.retry (← t.toNat?)))
+  | ["init", t, v] => do pure (b (.init (← t.toNat?) (← bool? v)))
+  | ["close", t] => do pure (b (.close (← t.toNat?)))
+  | ["query", k] => do pure (b (.query (← k.toNat?)))
+  | ["aclose"] => pure (b .aclose)
+  | ["gc", _] => pure .gc
+  | ["closeref", a, c] => do pure (.closeref (← a.toNat?) (← c.toNat?))
+  | ["keys", n] => do pure (.keys (← n.toNat?))
+  | ["pnew"] => pure (.op .pnew)
+  | "realize" :: p :: lim :: ks => do pure (.op (.realize (← p.toNat?) (← lim.toNat?) (← nats? ks)))
+  | ["pcancel", p] => do pure (.op (.pcancel (← p.toNat?)))
+  | ["pclose", p] => do pure (.op (.pclose (← p.toNat?)))
   | _ => none
 
 def render : Out → String
@@ -61,60 +84,65 @@ def render : Out → String
   | .botch => "closeerr"
   | .finalized => "finalized"
   | .state => "state"
+  | .aclosed => "aclosed"
+  | .tmperr => "tmperr"
   | .bad => "bad"
 
-/-- The observable state of one key: every rc ever created for it (count, file open or not),
-    which of them the arena map holds, and the number of requests the server saw. -/
-def keyState (s : State) (k : Nat) : String :=
+def prender : POut → String
+  | .out o => render o
+  | .proxy p => s!"proxy {p}"
+  | .started => "started"
+  | .cancelled => "pcancelled"
+  | .closed n => s!"pclosed {n}"
+  | .panic => "panic"
+  | .bad => "bad"
+
+/-- The observable state of one key: how many rcs were ever created for it, those of them
+    that are alive (referenced, or file open) with count, file state and the number of private
+    descriptors on the file, which one the arena map holds, the requests the server saw. -/
+def keyState (f : FState) (k : Nat) : String :=
+  let s := f.a
   let gens := (List.range s.nrc).filter fun r => (s.rc r).key == k
-  let cells := gens.zipIdx.map fun (r, i) =>
-    s!"g{i}:c{(s.rc r).count}:{if (s.rc r).fileOpen then "o" else "x"}"
+  let cells := (gens.zipIdx.filter fun (r, _) => (s.rc r).count != 0 || (s.rc r).fileOpen).map fun (r, i) =>
+    s!"g{i}:c{(s.rc r).count}:{if (s.rc r).fileOpen then "o" else "x"}:r{if (s.rc r).fileOpen then readersOf f.tab (f.rcIno r) else 0}"
   let a := match s.arena k with
     | none => "-"
     | some r => match gens.idxOf? r with
       | some i => toString i
       | none => "?"
-  String.intercalate " " (cells ++ [s!"a={a}", s!"h={s.hits k}"])
+  String.intercalate " " ([s!"k{k} n{gens.length}"] ++ cells ++ [s!"a={a}", s!"h={s.hits k}"])
 
-def opKey (s : State) : Op → Option Nat
-  | .spawn k | .fload k _ | .fnet k _ | .freq k | .fbody k _ | .fstore k | .fend k | .query k => some k
-  | .enter t | .cancel t | .ref t | .val t | .retry t | .init t _ | .close t =>
-    match s.tasks[t]? with
-    | some p => p.key?
-    | none => none
-  | .finalize i => match s.leaked[i]? with
-    | some r => some (s.rc r).key
-    | none => none
+def proxyState (p : Proxy) : String :=
+  match p.call with
+  | some c => s!"{if c.dead then "d" else "r"}{c.tasks.length}/{c.descs.length}+{p.cleanup.length}"
+  | none => s!"i{p.cleanup.length}"
 
-/-- Run every pending finalizer (abandoned refs only exist in the old machine). -/
-def runFinalizers (s : State) : Nat → State
-  | 0 => s
-  | n + 1 => if s.leaked.isEmpty then s else runFinalizers (step s (.finalize 0)).1 n
+def world (d : DState) : String :=
+  let f := d.p.f
+  let (w, t, r) := counts f.tab
+  let keys := (List.range d.nkeys).map (keyState f)
+  let px := if d.p.px.isEmpty then "-" else String.intercalate " " (d.p.px.map proxyState)
+  String.intercalate " | " (keys ++ [s!"fd w={w} t={t} r={r}", s!"px {px}"])
 
-def stepLine (s : State) (l : String) : State × String :=
-  if l == "reset" then (init, "ok") else
+def stepLine (d : DState) (l : String) : DState × String :=
+  if l == "reset" then ({}, "ok") else
   match parse l with
-  | none => (s, "bad-op")
-  | some (.gc k) =>
-    let s' := runFinalizers s s.leaked.length
-    (s', s!"gc | {keyState s' k}")
-  | some (.closeref a b) =>
+  | none => (d, "bad-op")
+  | some (.keys n) => ({ d with nkeys := n }, "ok")
+  | some .gc => (d, s!"gc | {world d}")
+  | some (.closeref a c) =>
     -- a Close racing with a Ref on the same rc: rc.dec is one critical section, so the
     -- observable result is that of `close a` followed by `ref b`
-    let key := opKey s (.close a)
-    let (s1, o1) := step s (.close a)
-    let (s2, o2) := step s1 (.ref b)
-    match key with
-    | some k => (s2, s!"{render o1} {render o2} | {keyState s2 k}")
-    | none => (s2, s!"{render o1} {render o2}")
+    let (p1, o1) := pstep d.p (.base (.base (.close a)))
+    let (p2, o2) := pstep p1 (.base (.base (.ref c)))
+    let d' := { d with p := p2 }
+    (d', s!"{prender o1} {prender o2} | {world d'}")
   | some (.op op) =>
-    let key := opKey s op
-    let (s', o) := step s op
-    match key with
-    | some k => (s', s!"{render o} | {keyState s' k}")
-    | none => (s', render o)
+    let (p', o) := pstep d.p op
+    let d' := { d with p := p' }
+    (d', s!"{prender o} | {world d'}")
 
 end Driver.C10
 
 def main : IO Unit := do
-  Driver.foldLines (← IO.getStdin) (← IO.getStdout) ClairModel.Arena.init Driver.C10.stepLine
+  Driver.foldLines (← IO.getStdin) (← IO.getStdout) ({} : Driver.C10.DState) Driver.C10.stepLine
